@@ -20,7 +20,7 @@ from typing import Any, Callable, Dict, Iterable, List, Optional
 VERIF = Path(__file__).resolve().parent.parent
 REPO = Path(os.environ.get("SA_REPO", "/repo"))
 KNOWN_FILE = VERIF / "known_findings.json"
-EVIDENCE_DIR = VERIF / "evidence"
+EVIDENCE_DIR = Path(os.environ.get("SA_EVIDENCE_DIR", str(VERIF / "evidence")))
 REPLAY_DIR = EVIDENCE_DIR / "replay"
 
 
@@ -77,14 +77,15 @@ class RuleInfo:
     fn: Callable
     floor: int = 1
     soft: bool = False  # idiom rule: SKIPPED instead of ANALYSIS-ERROR
+    default_props: Optional[List[str]] = None  # attribution of obligations that name no property themselves
 
 
 RULES: Dict[str, RuleInfo] = {}
 
 
-def rule(rid: str, title: str, props: Iterable[str], floor: int = 1, soft: bool = False):
+def rule(rid: str, title: str, props: Iterable[str], floor: int = 1, soft: bool = False, default_props: Optional[Iterable[str]] = None):
     def deco(fn):
-        RULES[rid] = RuleInfo(rid, title, list(props), fn, floor, soft)
+        RULES[rid] = RuleInfo(rid, title, list(props), fn, floor, soft, list(default_props) if default_props else None)
         return fn
 
     return deco
@@ -209,7 +210,8 @@ def check_property(ctx: Ctx, prop: str, meta: dict, seed: int = 0, out=sys.stdou
     obligations: List[Obligation] = []
     for rid in rids:
         for o in ctx.obligations.get(rid, []):
-            if o.props is None or prop in o.props:
+            eff = o.props if o.props is not None else (RULES[rid].default_props or RULES[rid].props)
+            if prop in eff:
                 obligations.append(o)
     errors = [e for e in ctx.errors if e.rule in rids]
     findings = [o for o in obligations if not o.ok and not o.info]
